@@ -274,6 +274,12 @@ pub proof fn lemma_lower_seq_idem(s: Seq<char>)
     }
 }
 
+// A-validated per char (exhaustive over all scalar values): lower-casing never yields the empty string
+#[verifier::external_body]
+pub proof fn axiom_lower_nonempty(c: char)
+    ensures u_to_lower(c).len() > 0
+{ }
+
 // ---- theory: split.rs ----
 // ---- splitting vocabulary (defined recursively, so the lemmas below are proved, not assumed) ----
 pub open spec fn last_index_of(s: Seq<char>, c: char) -> int decreases s.len()
@@ -1655,47 +1661,10 @@ pub proof fn lemma_phase_b_canon(p: PurlParts, ns_segs: Seq<Seq<char>>, sub_segs
     requires norm_parts(p, ns_segs, sub_segs)
     ensures phase_b(rest_of(p)) == Ok::<PhaseB, ParseError>(PhaseB { ns: p.namespace@, name: p.name@, version: p.version@ })
 {
-    lemma_lits();
-    let ens = enc(SetId::Path, p.namespace@);
-    let en = enc(SetId::Segment, p.name@);
-    let ev = enc(SetId::Path, p.version@);
-    let nsp = opt_part(p.namespace@.len() > 0, ens + seq!['/']);
-    let r1 = nsp + en;
-    let r = rest_of(p);
-    // '@' : only the version separator
-    lemma_enc_excludes(SetId::Path, p.namespace@, '@');
-    lemma_enc_excludes(SetId::Segment, p.name@, '@');
-    lemma_enc_excludes(SetId::Path, p.version@, '@');
-    lemma_single_excludes('/', '@');
-    lemma_has_char_concat(ens, seq!['/'], '@');
-    lemma_has_char_concat(nsp, en, '@');
-    assert(!has_char(Seq::<char>::empty(), '@'));
-    assert(!has_char(r1, '@'));
-    if p.version@.len() > 0 {
-        assert(r =~= r1 + seq!['@'] + ev);
-        lemma_rsplit_join(r1, ev, '@');
-        assert(r.subrange(0, r1.len() as int) =~= r1);
-        assert(r.subrange(r1.len() as int + 1, r.len() as int) =~= ev);
-        axiom_dec_enc(SetId::Path, p.version@);
-    } else {
-        assert(r =~= r1);
-        lemma_last_index(r1, '@');
-        assert(p.version@ =~= Seq::<char>::empty());
-    }
-    // '/' : the name never contains one
-    lemma_enc_excludes(SetId::Segment, p.name@, '/');
-    axiom_dec_enc(SetId::Segment, p.name@);
-    if p.namespace@.len() > 0 {
-        assert(r1 =~= ens + seq!['/'] + en);
-        lemma_rsplit_join(ens, en, '/');
-        assert(r1.subrange(0, ens.len() as int) =~= ens);
-        assert(r1.subrange(ens.len() as int + 1, r1.len() as int) =~= en);
-        lemma_ns_roundtrip(ns_segs);
-    } else {
-        assert(r1 =~= en);
-        lemma_last_index(en, '/');
-        assert(p.namespace@ =~= Seq::<char>::empty());
-    }
+    // the general statement (part 6) specialised: for clean segments nothing is dropped
+    lemma_phase_b_canon_gen(p);
+    if p.namespace@.len() > 0 { lemma_sig_ns_normal(ns_segs); assert(p.namespace@ == join_segs(ns_segs)); }
+    else { lemma_sig_empty(); assert(p.namespace@ =~= Seq::<char>::empty()); }
 }
 
 pub open spec fn c_l2(ty: Seq<char>, p: PurlParts) -> Seq<char> { ty + seq!['/'] + rest_of(p) }
@@ -2126,6 +2095,30 @@ pub proof fn lemma_sig_ns_all_slash(n: Seq<char>)
     assert(sig_ns(n)[0] != '/');
 }
 
+// ---- for clean segments nothing is dropped ----
+pub proof fn lemma_keep_ns_all(segs: Seq<Seq<char>>)
+    requires slash_free_nonempty(segs)
+    ensures keep_ns(segs) == segs
+    decreases segs.len()
+{
+    if segs.len() > 0 {
+        let init = segs.drop_last();
+        assert forall|i: int| 0 <= i < init.len() implies (#[trigger] init[i]).len() > 0 && !has_char(init[i], '/') by { assert(init[i] == segs[i]); }
+        lemma_keep_ns_all(init);
+        assert(segs[segs.len() - 1].len() > 0);
+        assert(init.push(segs.last()) =~= segs);
+    } else {
+        assert(keep_ns(segs) =~= segs);
+    }
+}
+pub proof fn lemma_sig_ns_normal(segs: Seq<Seq<char>>)
+    requires segs.len() > 0, slash_free_nonempty(segs)
+    ensures sig_ns(join_segs(segs)) == join_segs(segs)
+{
+    lemma_split_of_join(segs);
+    lemma_keep_ns_all(segs);
+}
+
 // ---- unit theory.inverse6  <= (contracts):0 ----
 // ---- part 6 (C09): phase_a / phase_b applied to canon_spec of ARBITRARY handed-out parts ----
 // (generated from part 4 by replacing the two round-trip steps with their general versions; see tools note in DESIGN.md)
@@ -2330,6 +2323,107 @@ pub proof fn lemma_parse_canon_gen(ty: Seq<char>, p: PurlParts)
 {
     lemma_phase_a_canon_gen(ty, p);
     lemma_phase_b_canon_gen(p);
+}
+
+// ---- unit theory.c03  <= (contracts):0 ----
+// ---- C03, last sentence: "The output is therefore printable ASCII in which each separator character can only be read as a separator" ----
+pub open spec fn printable_c(c: char) -> bool { 0x21 <= (c as u32) && (c as u32) <= 0x7e }
+pub open spec fn printable(s: Seq<char>) -> bool { forall|i: int| 0 <= i < s.len() ==> printable_c(#[trigger] s[i]) }
+
+pub proof fn lemma_printable_concat(a: Seq<char>, b: Seq<char>)
+    requires printable(a), printable(b)
+    ensures printable(a + b)
+{
+    assert forall|i: int| 0 <= i < (a + b).len() implies printable_c(#[trigger] (a + b)[i]) by {
+        if i < a.len() { assert((a + b)[i] == a[i]); } else { assert((a + b)[i] == b[i - a.len()]); }
+    }
+}
+
+/// every encoded component is printable ASCII: an unescaped character is one, an escape is '%' and upper-case hex digits
+pub proof fn lemma_enc_printable(set: SetId, s: Seq<char>)
+    ensures printable(enc(set, s))
+    decreases s.len()
+{
+    if s.len() > 0 {
+        lemma_enc_printable(set, s.drop_last());
+        let c = s.last();
+        axiom_pct(c);
+        let e = enc_char(set, c);
+        assert(printable(e)) by {
+            assert forall|i: int| 0 <= i < e.len() implies printable_c(#[trigger] e[i]) by {
+                if escaped_c(set, c) { assert(pct_alphabet(pct(c)[i])); }
+            }
+        }
+        lemma_printable_concat(enc(set, s.drop_last()), e);
+    }
+}
+
+pub proof fn lemma_quals_text_printable(v: Seq<(QualifierKey, SmallString)>)
+    ensures printable(quals_text(v))
+    decreases v.len()
+{
+    if v.len() > 0 {
+        lemma_quals_text_printable(v.drop_last());
+        let kv = v.last();
+        let sep = seq![if v.len() == 1 { '?' } else { '&' }];
+        lemma_enc_printable(SetId::Query, kv.0.0@);
+        lemma_enc_printable(SetId::Query, kv.1@);
+        assert(printable(sep)); assert(printable(seq!['=']));
+        let t0 = quals_text(v.drop_last());
+        lemma_printable_concat(t0, sep);
+        lemma_printable_concat(t0 + sep, enc(SetId::Query, kv.0.0@));
+        lemma_printable_concat(t0 + sep + enc(SetId::Query, kv.0.0@), seq!['=']);
+        lemma_printable_concat(t0 + sep + enc(SetId::Query, kv.0.0@) + seq!['='], enc(SetId::Query, kv.1@));
+    }
+}
+
+/// C03: the canonical string is printable ASCII (for every type text made of type characters and any parts)
+pub proof fn theorem_c03_printable(ty: Seq<char>, p: PurlParts)
+    requires valid_type(ty)
+    ensures printable(canon_spec(ty, p))
+{
+    lemma_lits();
+    lemma_canon_stages(ty, p);
+    assert(printable(ty)) by { assert forall|i: int| 0 <= i < ty.len() implies printable_c(#[trigger] ty[i]) by { assert(type_char(ty[i])); } }
+    reveal_strlit("pkg:");
+    assert(printable("pkg:"@)) by { assert("pkg:"@ =~= seq!['p', 'k', 'g', ':']); }
+    assert(printable(seq!['/'])); assert(printable(seq!['@'])); assert(printable(seq!['#'])); assert(printable(Seq::<char>::empty()));
+    lemma_enc_printable(SetId::Path, p.namespace@);
+    lemma_enc_printable(SetId::Segment, p.name@);
+    lemma_enc_printable(SetId::Path, p.version@);
+    lemma_enc_printable(SetId::Fragment, p.subpath@);
+    lemma_quals_text_printable(p.qualifiers.qualifiers@);
+    lemma_printable_concat("pkg:"@, ty);
+    lemma_printable_concat("pkg:"@ + ty, "/"@);
+    lemma_printable_concat(enc(SetId::Path, p.namespace@), "/"@);
+    lemma_printable_concat(cs1(ty), opt_part(p.namespace@.len() > 0, enc(SetId::Path, p.namespace@) + "/"@));
+    lemma_printable_concat(cs2(ty, p), enc(SetId::Segment, p.name@));
+    lemma_printable_concat("@"@, enc(SetId::Path, p.version@));
+    lemma_printable_concat(cs3(ty, p), opt_part(p.version@.len() > 0, "@"@ + enc(SetId::Path, p.version@)));
+    lemma_printable_concat(cs4(ty, p), quals_text(p.qualifiers.qualifiers@));
+    lemma_printable_concat("#"@, enc(SetId::Fragment, p.subpath@));
+    lemma_printable_concat(cs5(ty, p), opt_part(p.subpath@.len() > 0, "#"@ + enc(SetId::Fragment, p.subpath@)));
+}
+
+/// C03: "each separator character can only be read as a separator" -- inside the components the separator characters
+/// '@', '?', '#' never occur raw, '/' never occurs raw in the name, '&' and '=' ... '&' never in a qualifier value, and the
+/// right-to-left splitting of the parser therefore finds exactly the written separators (lemma_parse_canon_gen, group inverse)
+pub proof fn theorem_c03_separators(p: PurlParts, i: int)
+    requires 0 <= i < p.qualifiers.qualifiers@.len()
+    ensures
+        !has_char(enc(SetId::Path, p.namespace@), '@'), !has_char(enc(SetId::Path, p.namespace@), '?'), !has_char(enc(SetId::Path, p.namespace@), '#'),
+        !has_char(enc(SetId::Segment, p.name@), '/'), !has_char(enc(SetId::Segment, p.name@), '@'), !has_char(enc(SetId::Segment, p.name@), '?'), !has_char(enc(SetId::Segment, p.name@), '#'),
+        !has_char(enc(SetId::Path, p.version@), '@'), !has_char(enc(SetId::Path, p.version@), '?'), !has_char(enc(SetId::Path, p.version@), '#'),
+        !has_char(enc(SetId::Query, p.qualifiers.qualifiers@[i].1@), '&'), !has_char(enc(SetId::Query, p.qualifiers.qualifiers@[i].1@), '#'),
+        !has_char(enc(SetId::Query, p.qualifiers.qualifiers@[i].1@), '?'), !has_char(enc(SetId::Query, p.qualifiers.qualifiers@[i].1@), '+'),
+        !has_char(enc(SetId::Fragment, p.subpath@), '#'), !has_char(enc(SetId::Fragment, p.subpath@), '?'),
+{
+    lemma_enc_excludes(SetId::Path, p.namespace@, '@'); lemma_enc_excludes(SetId::Path, p.namespace@, '?'); lemma_enc_excludes(SetId::Path, p.namespace@, '#');
+    lemma_enc_excludes(SetId::Segment, p.name@, '/'); lemma_enc_excludes(SetId::Segment, p.name@, '@'); lemma_enc_excludes(SetId::Segment, p.name@, '?'); lemma_enc_excludes(SetId::Segment, p.name@, '#');
+    lemma_enc_excludes(SetId::Path, p.version@, '@'); lemma_enc_excludes(SetId::Path, p.version@, '?'); lemma_enc_excludes(SetId::Path, p.version@, '#');
+    let v = p.qualifiers.qualifiers@[i].1@;
+    lemma_enc_excludes(SetId::Query, v, '&'); lemma_enc_excludes(SetId::Query, v, '#'); lemma_enc_excludes(SetId::Query, v, '?'); lemma_enc_excludes(SetId::Query, v, '+');
+    lemma_enc_excludes(SetId::Fragment, p.subpath@, '#'); lemma_enc_excludes(SetId::Fragment, p.subpath@, '?');
 }
 
 
